@@ -302,4 +302,135 @@ theorem step_progress (install : Bool) (args : List Stage) (body : Stage) (ctxs 
   · next o r hpc => simp [hpc]
   · next r hpc => exact absurd hpc (h r)
 
+/-! ### every worker finishes after its own number of actions, whatever the others do -/
+
+theorem resolve_left (args : List Stage) (body : Stage) (s : Ctx) (o : Nat) (c : Comp Bytes) :
+    (resolve args s o c).left args body s = stepsLeft args s c := by
+  cases c with
+  | ret v => rfl
+  | panic m => rfl
+  | getKey n k => rfl
+  | getMatch i k =>
+    simp only [resolve, stepsLeft]
+    split
+    · rfl
+    · split
+      · rfl
+      · split <;> rfl
+
+theorem step_other (install : Bool) (args : List Stage) (body : Stage) (ctxs : Nat → Ctx) {v w : Nat} (st : St) (h : v ≠ w) :
+    (step install args body ctxs w st).pcs v = st.pcs v := by
+  unfold step
+  split
+  · split <;> exact setPc_ne _ _ h
+  · rw [setPc_ne _ _ h]; cases install <;> rfl
+  · exact setPc_ne _ _ h
+  · exact setPc_ne _ _ h
+  · rfl
+
+theorem step_left {args : List Stage} {body : Stage} {ctxs : Nat → Ctx} {st : St} (h : Inv args body ctxs st) (w : Nat) :
+    ((step true args body ctxs w st).pcs w).left args body (ctxs w) = (st.pcs w).left args body (ctxs w) - 1 := by
+  unfold step
+  split
+  · next hpc => split <;> simp [hpc, Pc.left]
+  · next o hpc => simp [hpc, Pc.left]
+  · next o c hpc =>
+    rw [setPc_self, hpc, (h.run w o c hpc).1, resolve_left]; simp [Pc.left]
+  · next o r hpc => simp [hpc, Pc.left]
+  · next r hpc => simp [hpc, Pc.left]
+
+theorem exec_left {args : List Stage} {body : Stage} {ctxs : Nat → Ctx} (w : Nat) (sched : List Nat) :
+    ∀ {st : St}, Inv args body ctxs st →
+      ((exec true args body ctxs sched st).pcs w).left args body (ctxs w) = (st.pcs w).left args body (ctxs w) - sched.count w := by
+  induction sched with
+  | nil => intro st _; simp [exec]
+  | cons x rest ih =>
+    intro st h
+    have := ih (step_inv h x)
+    simp only [exec, List.foldl_cons] at this ⊢
+    rw [this]
+    by_cases hx : x = w
+    · subst hx; rw [step_left h x]; simp; omega
+    · rw [step_other _ _ _ _ _ (Ne.symm hx)]
+      have : (x == w) = false := by simpa using hx
+      simp [List.count_cons, this]
+
+theorem left_zero {args : List Stage} {body : Stage} {s : Ctx} {pc : Pc} (h : pc.left args body s = 0) : ∃ r, pc = .done r := by
+  cases pc <;> simp [Pc.left] at h
+  exact ⟨_, rfl⟩
+
+/-! ## Part 2: the layout cell -/
+
+@[simp] theorem tsetPc_self {L : Type} (st : TSt L) (w : Nat) (pc : TPc L) : (st.setPc w pc).pcs w = pc := by simp [TSt.setPc]
+theorem tsetPc_ne {L : Type} (st : TSt L) {v w : Nat} (pc : TPc L) (h : v ≠ w) : (st.setPc w pc).pcs v = st.pcs v := by
+  simp [TSt.setPc, h]
+@[simp] theorem tsetPc_cell {L : Type} (st : TSt L) (w : Nat) (pc : TPc L) : (st.setPc w pc).cell = st.cell := rfl
+
+theorem tfresh_inv {L : Type} (lib : TimeLib L) (dates : Nat → Bytes) : TInv lib dates TSt.fresh :=
+  { cell := fun l h => by cases h
+    loaded := fun w l h => by cases h
+    nonempty := fun w x h => by cases h
+    detected := fun w l h => by cases h
+    done := fun w v h => by cases h }
+
+/-- Setting one worker's position, the cell untouched: the invariant needs the facts about the new position only. -/
+theorem tinv_setPc {L : Type} {lib : TimeLib L} {dates : Nat → Bytes} {st : TSt L} (h : TInv lib dates st) (w : Nat) (pc : TPc L)
+    (cell' : Option L) (hcell : ∀ l, cell' = some l → ∃ w', dates w' ≠ [] ∧ lib.detect (dates w') = some l)
+    (h1 : ∀ l, pc = .loaded (some l) → ∃ w', dates w' ≠ [] ∧ lib.detect (dates w') = some l)
+    (h2 : ∀ x, pc = .loaded x → dates w ≠ [])
+    (h3 : ∀ l, pc = .detected l → dates w ≠ [] ∧ lib.detect (dates w) = some l)
+    (h4 : ∀ v, pc = .done v → Good lib dates w v) :
+    TInv lib dates ({ st with cell := cell' }.setPc w pc) := by
+  refine ⟨hcell, fun v l e => ?_, fun v x e => ?_, fun v l e => ?_, fun v x e => ?_⟩
+  · by_cases hv : v = w
+    · subst hv; simp at e; exact h1 l e
+    · rw [tsetPc_ne _ _ hv] at e; exact h.loaded v l e
+  · by_cases hv : v = w
+    · subst hv; simp at e; exact h2 x e
+    · rw [tsetPc_ne _ _ hv] at e; exact h.nonempty v x e
+  · by_cases hv : v = w
+    · subst hv; simp at e; exact h3 l e
+    · rw [tsetPc_ne _ _ hv] at e; exact h.detected v l e
+  · by_cases hv : v = w
+    · subst hv; simp at e; exact h4 x e
+    · rw [tsetPc_ne _ _ hv] at e; exact h.done v x e
+
+theorem tstep_inv {L : Type} {lib : TimeLib L} {dates : Nat → Bytes} {st : TSt L} (h : TInv lib dates st) (w : Nat) :
+    TInv lib dates (tstep lib dates w st) := by
+  unfold tstep
+  split
+  · next hpc =>
+    split
+    · next he =>
+      exact tinv_setPc h w _ st.cell h.cell (fun l e => by cases e) (fun x e => by cases e) (fun l e => by cases e)
+        (fun v e => by cases e; exact .inl ⟨he, rfl⟩)
+    · next he =>
+      exact tinv_setPc h w _ st.cell h.cell (fun l e => by simp only [TPc.loaded.injEq] at e; exact h.cell l e) (fun x _ => he) (fun l e => by cases e)
+        (fun v e => by cases e)
+  · next l hpc =>
+    exact tinv_setPc h w _ st.cell h.cell (fun l e => by cases e) (fun x e => by cases e) (fun l e => by cases e)
+      (fun v e => by
+        cases e
+        obtain ⟨w', hw'⟩ := h.loaded w l hpc
+        exact .inr (.inr ⟨h.nonempty w _ hpc, w', l, hw'.1, hw'.2, rfl⟩))
+  · next hpc =>
+    split
+    · next hd =>
+      exact tinv_setPc h w _ st.cell h.cell (fun l e => by cases e) (fun x e => by cases e) (fun l e => by cases e)
+        (fun v e => by cases e; exact .inr (.inl ⟨hd, rfl⟩))
+    · next l hd =>
+      exact tinv_setPc h w _ st.cell h.cell (fun l e => by cases e) (fun x e => by cases e)
+        (fun l' e => by cases e; exact ⟨h.nonempty w none hpc, hd⟩) (fun v e => by cases e)
+  · next l hpc =>
+    have hd := h.detected w l hpc
+    exact tinv_setPc h w _ (some l) (fun l' e => by cases e; exact ⟨w, hd.1, hd.2⟩) (fun l e => by cases e) (fun x e => by cases e)
+      (fun l e => by cases e) (fun v e => by cases e; exact .inr (.inr ⟨hd.1, w, l, hd.1, hd.2, rfl⟩))
+  · exact h
+
+theorem texec_inv {L : Type} {lib : TimeLib L} {dates : Nat → Bytes} (sched : List Nat) :
+    ∀ {st : TSt L}, TInv lib dates st → TInv lib dates (texec lib dates sched st) := by
+  induction sched with
+  | nil => exact fun h => h
+  | cons w rest ih => exact fun h => ih (tstep_inv h w)
+
 end Rare.C10.Conc
